@@ -208,7 +208,13 @@ pub(crate) fn spec_function(e: &ExpressionTree, ev: &dyn Fn(&ExpressionTree) -> 
                     _ if any_null => (Unspecified, ""),
                     _ => (Error, "fn-type-mismatch"),
                 },
-                (Function::TimestampExtractEpoch, [a]) => match a { Value::Timestamp(_) | Value::Null => (Unspecified, ""), _ => (Error, "fn-type-mismatch") },
+                // seconds since 1970-01-01 UTC with the milliseconds as fraction: a value for EVERY timestamp (also far outside
+                // 1677..2262), from the instant's whole seconds and milliseconds
+                (Function::TimestampExtractEpoch, [a]) => match a {
+                    Value::Timestamp(t) if t.timestamp_subsec_nanos() < 1_000_000_000 => (val(Value::Float(Float((t.timestamp() as f64 * 1000.0 + t.timestamp_subsec_millis() as f64) / 1000.0))), "epoch"),
+                    Value::Timestamp(_) | Value::Null => (Unspecified, ""),
+                    _ => (Error, "fn-type-mismatch")
+                },
                 _ => (Unspecified, ""),
             }
         }
